@@ -38,6 +38,9 @@ SCHEMA = {
     "Distribution": {"cat": "m", "slots": [(("x",), "one", "p"),
                                            (("parameters", "loc"), "one", "p")]},
     "JointDistributionModel": {"cat": "m", "slots": [(("distributions",), "list", "m")]},
+    # container-like registered classes (UserDict / UserList: empty instances are falsy)
+    "Taxon": {"cat": "t", "slots": []},
+    "Taxa": {"cat": "a", "slots": [(("taxa",), "list0", "t")]},
 }
 
 TYPE_NAMES = {
@@ -53,6 +56,8 @@ TYPE_NAMES = {
     "JointDistributionModel": [
         "JointDistributionModel",
         "torchtree.distributions.joint_distribution.JointDistributionModel"],
+    "Taxon": ["Taxon", "torchtree.evolution.taxa.Taxon"],
+    "Taxa": ["Taxa", "torchtree.evolution.taxa.Taxa"],
 }
 _SHORT = {alias: short for short, aliases in TYPE_NAMES.items() for alias in aliases}
 
@@ -147,7 +152,7 @@ def slot_values(obj):
         if arity == "one":
             out.append((name, None, cat, v))
         else:
-            if not isinstance(v, list) or not v:
+            if not isinstance(v, list) or (not v and arity == "list"):
                 raise OutOfGrammar(f"slot {name} must be a non-empty list")
             for i, e in enumerate(v):
                 out.append((name, i, cat, e))
@@ -261,7 +266,8 @@ def objects_by_id(spec):
 def evaluate(spec, override=None):
     """{id: numpy array | None} for a well-formed document.  `override` maps ids of
     Parameters to the values they currently hold.  None = the value is undefined
-    (shapes that do not broadcast)."""
+    (shapes that do not broadcast).  A Taxon denotes its attribute dict, a Taxa the list of
+    the ids of its members."""
     override = override or {}
     objs = objects_by_id(spec)
     memo = {}
@@ -274,7 +280,11 @@ def evaluate(spec, override=None):
             return memo[i]
         o = objs[i]
         t = short_type(o)
-        if t == "Parameter":
+        if t == "Taxon":
+            r = dict(o.get("attributes", {}))
+        elif t == "Taxa":
+            r = [tid(v) for v in o["taxa"]]
+        elif t == "Parameter":
             r = np.array(override[i] if i in override else o["tensor"], dtype=float)
         elif t == "ViewParameter":
             lo, hi = (int(s) for s in o["indices"].split(":"))
